@@ -858,3 +858,21 @@ B("publish() dispatches the subscribe operation of the state", ["C14"],
   [(PS, "        return self.state.publish(request)", "        return self.state.subscribe(request)")], {"C14": ["M-DISPATCH"]})
 B("handlePINGRESP raises on every PINGRESP", ["C15"],
   [(BASE, "        log.debug(\"<== {packet:7}\", packet=\"PINGRESP\")\n        if self._pingReq.alarm:", "        log.debug(\"<== {packet:7}\", packet=\"PINGRESP\")\n        raise MQTTStateError(\"unexpected PINGRESP\")\n        if self._pingReq.alarm:")], {"C15": ["Q3"]})
+B("loss path ignores the session mode: always drains", ["C11", "C12"],
+  [(PS, "        # Then, invoke errbacks anyway if we do not persist state\n        if self._cleanStart:\n", "        # Then, invoke errbacks anyway if we do not persist state\n        if True:\n")], {"C11": ["X-SPLIT"], "C12": ["Y-KEEP", "Y-SPLIT", "Y-MODE"]})
+B("clean loss succeeds the held-back publishes", ["C11"],
+  [(PS, "                if not request.deferred.called:\n                    request.deferred.errback(reason)\n            self._purgeSession(reason)", "                if not request.deferred.called:\n                    request.deferred.callback(request.msgId)\n            self._purgeSession(reason)")], {"C11": ["X-REASON"]})
+B("accepted CONNACK treats every session as persistent", ["C12"],
+  [(PS, "        if self._cleanStart:\n            self._purgeSession(MQTTSessionCleared())\n            # the purge freed window slots: send what publish() queued behind them\n            self._refillPublish(dup=False)\n        else:\n            self._syncSession()\n", "        self._syncSession()\n")], {"C12": ["Y-SPLIT"]})
+B("disconnect() writes DISCONNECT and leaves the transport open", ["C18"],
+  [(BASE, "        self.transport.write(request.encode())\n        self.transport.loseConnection()\n", "        self.transport.write(request.encode())\n")], {"C18": ["W3"]})
+B("setTimeout never rejects", ["C20"],
+  [(BASE, "        if not ( 1 <= timeout <= self.TIMEOUT_MAX_INITIAL ):\n             raise TimeoutValueError(timeout)\n        self._initialT = timeout", "        self._initialT = timeout")], {"C20": ["G-REJECTS", "G-INTERVAL"]})
+B("setTimeout validates and stores nothing", ["C20"],
+  [(BASE, "             raise TimeoutValueError(timeout)\n        self._initialT = timeout", "             raise TimeoutValueError(timeout)\n        initialT = timeout")], {"C20": ["G-STORE"]})
+B("keepalive loop started whatever the keepalive", ["C15"],
+  [(BASE, "            if request.keepalive != 0:\n                self._pingReq.keepalive = request.keepalive", "            if True:\n                self._pingReq.keepalive = request.keepalive")], {"C15": ["Q1"]})
+B("PINGRESP stops the periodic keepalive call", ["C15"],
+  [(BASE, "        if self._pingReq.alarm:\n            self._pingReq.alarm.cancel()\n            self._pingReq.alarm = None\n\n\n    # ---------------------------", "        if self._pingReq.alarm:\n            self._pingReq.alarm.cancel()\n            self._pingReq.alarm = None\n        if self._pingReq.timer:\n            self._pingReq.timer.stop()\n            self._pingReq.timer = None\n\n\n    # ---------------------------")], {"C15": ["Q7"]})
+B("packet type table without SUBACK", ["C16"],
+  [(BASE, "                   0x09: \"SUBACK\",  0x0A: \"UNSUBSCRIBE\"", "                   0x0A: \"UNSUBSCRIBE\"")], {"C16": ["E2"]})
